@@ -271,7 +271,30 @@ def replay_threadpool(prop, result, fresh, wd, info):
     return False
 
 
-HOOKS = {'threadpool': replay_threadpool, 'thread': replay_thread, 'localeinfo': replay_localeinfo, 'resource': replay_resource, 'ringbuffer': replay_ringbuffer, 'array': replay_array, 'arrayb': replay_array}
+def replay_subject(prop, result, fresh, wd, info):
+    exe = os.path.join(wd, 'subj_replay')
+    cmd = ['g++', '-std=c++20', '-g', '-O0', '-fsanitize=address', '-I', os.path.join(REPO, 'include'), os.path.join(ROOT, 'replay', 'subj_replay.cpp'), '-o', exe]
+    rc, out = _run(cmd, timeout=600)
+    if rc != 0:
+        info['native'] = 'replay driver does not build against the current tree: ' + out[-1500:]
+        return False
+    env = dict(os.environ, ASAN_OPTIONS='detect_leaks=1')
+    inputs = [['handle', 'foreign'], ['handle', 'stale']]
+    for n in (1, 3):
+        for k in range(n):
+            inputs += [['pure', str(n), str(k), m, v] for m in '01' for v in '01']
+            inputs += [['reent', str(n), str(k), a] for a in ('self_unsub', 'unsub_next', 'unsub_prev', 'self_invalidate', 'subscribe_new', 'self_mute', 'swap_next')]
+    for a in inputs:
+        rc, o = _run(['timeout', '30', exe] + a, timeout=60, env=env)
+        if rc != 0 and ('CONFIRMED' in o or 'ERROR: AddressSanitizer' in o or 'ERROR: LeakSanitizer' in o):
+            info['native'] = {'input': ' '.join(a), 'outcome': 'CONFIRMED',
+                              'output': '\n'.join([l for l in o.split('\n') if 'CONFIRMED' in l or 'ERROR' in l or 'Subject.h' in l][:5])}
+            return True
+    info['native'] = {'outcome': 'NOT-REPRODUCED', 'tried': '%d histories: one observer muted/invalidated/self-unsubscribing/unsubscribing a neighbour/subscribing during notify, n in {1,3}' % len(inputs)}
+    return False
+
+
+HOOKS = {'subject': replay_subject, 'threadpool': replay_threadpool, 'thread': replay_thread, 'localeinfo': replay_localeinfo, 'resource': replay_resource, 'ringbuffer': replay_ringbuffer, 'array': replay_array, 'arrayb': replay_array}
 
 
 def make_replay(prop, result, fresh, wd, tier):
